@@ -70,7 +70,7 @@ CHECKS.update({
         text="value is the OR of all cubes; every form of | and & runs the simplification last on the container it returns; | keeps all cubes, & forms all pairwise products; simplification keeps, on every realisable valuation of the opaque predicates, exactly the non-zero cubes implying no other cube; complement is the De Morgan fold from the constant one with inverted literals; Lut->Sop emits exactly the minterms (n<=2 quick, 3 thorough); is_zero/is_one sound. On real cubes over a two-variable window (operands up to 2+2 / 0+3 cubes) |, & and ! denote OR, AND and complement and return a cover with no contradictory cube, no duplicate and no cube implying another, for every canonical choice of operand cubes.",
         note="Beyond the window sizes the argument is: simplification runs last (C14.M) + its specification on opaque predicates (C14.S) + the trusted absorption lemma. std::sort is modelled as the stable sort by the elements' own order. Lengths 0..3."),
     "C15": dict(cat="other", ref="3 C15", technique=OPQ + "; Lut->Esop by path-sensitive abstract interpretation on symbolic tables (every abstract path; for larger n a few symbolic table bits at a time, on sparse and on dense backgrounds); window-mode abstract interpretation of ^ and ! on real cubes over two variables",
-        text="value is the XOR of all cubes; ^ concatenates in all four forms; ! appends exactly one constant-one cube; conversion to Lut tabulates value; is_zero/is_one only for the constants. Lut->Esop (all functions for n<=2 quick, 3 thorough; for n = 3..8, thorough 10, functions with a few symbolic table bits and 0 elsewhere): on every path the emitted cubes are all-positive, below 2^n, without duplicate, and exactly the non-zero algebraic-normal-form coefficients of the path's function. On real cubes over a two-variable window ^ and ! denote XOR and complement.",
+        text="value is the XOR of all cubes; ^ concatenates in all four forms; ! appends exactly one constant-one cube; conversion to Lut tabulates value; is_zero/is_one only for the constants. Lut->Esop (all functions for n<=2 quick, 3 thorough; for n = 3..8, thorough 10, functions with a few symbolic table bits and all 0 or all 1 elsewhere): on every path the emitted cubes are all-positive, below 2^n, without duplicate, and exactly the non-zero algebraic-normal-form coefficients of the path's function. On real cubes over a two-variable window ^ and ! denote XOR and complement.",
         note="Lut->Esop for n >= 4 is decided on windows of table bits only (positions with at most two 0 index bits, bit 0, {5, 2^(n-1)}), not for all functions."),
     "C16": dict(cat="other", ref="3 C16", technique=TOK + "; cube/ecube printers followed on every abstract path of a symbolic object over variable windows and constant terms over a sparse variable set folded through the Ecube printer, text compared with the object through the grammar",
         text="Cube and Ecube text over windows {0,1,2}, two-digit indices and variable 31: every object prints a product / xor of its literals in increasing order, 1/0 for the constants, distinct objects distinct text. Sop/Soes join their terms with ' | ' and Esop with ' ^ ' (the operator value() reduces with), each term once in order, empty form prints 0. value() of each of the five types is the denotation of its representation (conjunction of literals, zero cube false, parity, OR/XOR of the term values), so the text denotes what value() returns.",
